@@ -523,6 +523,16 @@ def strategy_table(ctx):
             return {UNKNOWN}
         if isinstance(e, ast.IfExp):
             return possible(e.body, seen) | possible(e.orelse, seen)
+        if isinstance(e, ast.Subscript) and isinstance(e.value, ast.Name) and e.value.id not in defs:
+            # lookup in a module-level table of constants: the selected value for a constant key, any of its values otherwise
+            try:
+                tbl = repo.module_assign(mf.MNB, e.value.id)
+            except AnalysisError:
+                tbl = None
+            if isinstance(tbl, ast.Dict) and all(isinstance(vv, ast.Constant) for vv in tbl.values):
+                if isinstance(e.slice, ast.Constant):
+                    return {vv.value for kk, vv in zip(tbl.keys, tbl.values) if const_val(kk) == e.slice.value} or {UNKNOWN}
+                return {vv.value for vv in tbl.values}
         if isinstance(e, ast.BoolOp) and isinstance(e.op, ast.Or):
             out = set()
             for v in e.values:
@@ -609,7 +619,7 @@ BASEISH = {'base', 'outputs', 'attachments', 'base_cells'}
 EXIST_LETTERS = set('PR')
 
 
-def _action_strategies(repo):
+def _action_strategies(repo, cg):
     """action constant -> strategy constants whose tryresolve arm sets it."""
     tr = repo.func(mf.DEC + ':MergeDecisionBuilder.tryresolve')
     out = {}
@@ -622,7 +632,34 @@ def _action_strategies(repo):
                 for st in body:
                     if isinstance(st, ast.Assign) and dotted(st.targets[0]) == 'action' and isinstance(const_val(st.value), str):
                         out.setdefault(const_val(st.value), set()).update(x for x in ce[1] if isinstance(x, str))
+    if not out:
+        # table-driven form: a module-level literal of (strategy, action) string pairs (or a dict) that tryresolve, or a helper
+        # it hands the strategy to, walks / indexes
+        fns = [tr]
+        for c in calls_in(tr):
+            if any(dotted(a) == 'strategy' for a in c.args):
+                for kind, tgt in cg.resolve(c.func, tr):
+                    if kind == 'func' and tgt in repo.functions:
+                        fns.append(repo.functions[tgt])
+        m = repo.mod(mf.DEC)
+        for f in fns:
+            for nm in {x.id for x in ast.walk(f) if isinstance(x, ast.Name)}:
+                if nm not in m.assigns:
+                    continue
+                v = m.assigns[nm][-1]
+                pairs = []
+                if isinstance(v, (ast.Tuple, ast.List)) and v.elts and all(isinstance(e, ast.Tuple) and len(e.elts) == 2 for e in v.elts):
+                    pairs = [(const_val(e.elts[0]), const_val(e.elts[1])) for e in v.elts]
+                elif isinstance(v, ast.Dict) and v.keys:
+                    pairs = [(const_val(k), const_val(x)) for k, x in zip(v.keys, v.values)]
+                if pairs and all(isinstance(a, str) and isinstance(b, str) for a, b in pairs):
+                    for strat, act in pairs:
+                        out.setdefault(act, set()).add(strat)
+    if not out:
+        raise AnalysisError('R03.10: the strategy -> action mapping of tryresolve could not be recovered (neither an if-chain on '
+                            '`strategy` nor a literal pair table)')
     return out
+
 
 
 def base_lookups_by_diff_key(ctx, rule):
@@ -640,7 +677,7 @@ def base_lookups_by_diff_key(ctx, rule):
     repo, cg = ctx.repo, ctx.cg
     sch = NbSchema(5)
     table, _tr = strategy_table(ctx)
-    act2strat = _action_strategies(repo)
+    act2strat = _action_strategies(repo, cg)
     n_sites = 0
     for fid, fn in sorted(repo.functions.items()):
         if not fid.startswith(('nbdime.merging.generic:', 'nbdime.merging.strategies:', 'nbdime.merging.decisions:')):
